@@ -33,5 +33,10 @@ def run(ctx):
     siftcore.rule_stop_predicates(ctx, 'C04.R3')
     siftcore.rule_bounded_loop(ctx, 'C04.R4', gni)
     siftcore.rule_extraction_loop_exits(ctx, 'C04.R4', gni)
+    # the same options must be in force on every sifting iteration: an option dict changed by one envelope
+    # computation (a key popped from the caller's pad table) gives later iterations different envelopes
+    from .c06 import rule_no_replacement
+    rule_no_replacement(ctx, 'C04.R6', only={'emd.sift.get_next_imf', 'emd.sift.interp_envelope',
+                                             'emd.sift.get_padded_extrema', 'emd.sift._find_extrema'})
     siftcore.rule_cleared_flag(ctx, 'C04.R5', gni)
     siftcore.rule_energy_stop(ctx, 'C04.R6', gni)
